@@ -139,6 +139,69 @@ func c19Result(e *scen.Engines, q scen.Query) (texts []string, lie string) {
 	return sortedSet(texts), lie
 }
 
+// c19MidRead injects the fault *inside* one retrieval: the storage is closed
+// between two block reads of a rule that is longer than the read buffer (the
+// hook point "file.read-next-chunk").  Whatever the reader had collected so far
+// must not be served as a rule: results stay a subset of the rules that match.
+// Sequential: the yield hook is process-wide.
+func c19MidRead(c *Ctx) (evals int64) {
+	for _, nDomains := range []int{400, 900} { // 4.4 KiB: fault after the 1st block; 9.9 KiB: after the 1st or the 2nd
+		var ds []string
+		for i := 0; i < nDomains; i++ {
+			ds = append(ds, fmt.Sprintf("site%04d.test", i))
+		}
+		long := "/x$script,domain=" + strings.Join(ds, "|")
+		text := "||pre.test^\n" + long + "\n||post.test^\n/x$domain=site0001.test\n"
+		q := rules.NewRequest("http://y.test/x", fmt.Sprintf("http://site%04d.test/", nDomains-1), rules.TypeScript)
+		q1 := rules.NewRequest("http://y.test/x", "http://site0001.test/", rules.TypeScript)
+		truth := map[string]bool{long: true, "/x$domain=site0001.test": true}
+		for faultAt := 1; faultAt <= nDomains/300; faultAt++ {
+			for _, warmOther := range []bool{false, true} {
+				fl, err := filterlist.NewFileRuleList(1, scen.PathFor(text), false)
+				if err != nil {
+					panic(HarnessError(err.Error()))
+				}
+				st, err := filterlist.NewRuleStorage([]filterlist.RuleList{fl})
+				if err != nil {
+					panic(HarnessError(err.Error()))
+				}
+				ne := urlfilter.NewNetworkEngine(st)
+				if warmOther {
+					ne.MatchAll(rules.NewRequest("http://pre.test/", "", rules.TypeScript))
+				}
+				chunks := 0
+				filterlist.VerifYieldHook = func(point string) {
+					if point == "file.read-next-chunk" {
+						chunks++
+						if chunks == faultAt {
+							_ = st.Close()
+						}
+					}
+				}
+				desc := fmt.Sprintf("rule of %d bytes in a file list; storage closed after block %d of its retrieval", len(long), faultAt)
+				for qi, rq := range []*rules.Request{q, q, q1, q} {
+					var got []*rules.NetworkRule
+					evals++
+					if p := protect(func() { got = ne.MatchAll(rq) }); p != nil {
+						c.Run.Violate(ev.Violation{Pred: "no-crash", Sig: map[string]any{"mid_read": nDomains, "fault_at_block": faultAt}, What: fmt.Sprintf("%s: query #%d panics: %v", desc, qi+1, p), Replay: map[string]any{"mid_read": true}})
+						break
+					}
+					for _, r := range got {
+						if !truth[r.RuleText] || !r.Match(rq) {
+							c.Run.Violate(ev.Violation{Pred: "returned-rule-truly-matches", Sig: map[string]any{"mid_read": nDomains, "fault_at_block": faultAt, "query": qi},
+								What:   fmt.Sprintf("%s: query #%d returned %q (%d bytes), which is not a rule of the list that matches the request", desc, qi+1, clip(r.RuleText), len(r.RuleText)),
+								Replay: map[string]any{"mid_read": true}})
+						}
+					}
+				}
+				filterlist.VerifYieldHook = nil
+				_ = fl.File.Close()
+			}
+		}
+	}
+	return evals
+}
+
 // c19LargeWorkingSet materialises n rules of one file-backed list, injects the
 // fault, and asks for every one of them again: however many rules are in
 // memory, they are all still served.
@@ -354,6 +417,10 @@ func init() {
 			return evals
 		}
 		if c.Replay != nil {
+			if mr, _ := c.Replay["mid_read"].(bool); mr {
+				c19MidRead(c)
+				return
+			}
 			if n, ok := c.Replay["large"].(float64); ok {
 				c19LargeWorkingSet(c, int(n))
 				return
@@ -416,7 +483,9 @@ func init() {
 		for _, n := range largeSizes {
 			largeEvals += c19LargeWorkingSet(c, n)
 		}
-		evals += largeEvals
+		midEvals := c19MidRead(c)
+		c.Run.Set("mid_retrieval_fault_evaluations", midEvals)
+		evals += largeEvals + midEvals
 		c.Run.Set("large_working_set_sizes", fmt.Sprint(largeSizes))
 		c.Run.Set("large_working_set_evaluations", largeEvals)
 		c.Run.Sample(map[string]any{"history": []string{qs[0].String(), qs[3].String(), qs[0].String()}, "fault_before_query": 1, "fault": c19FaultKinds[0]})
@@ -427,6 +496,6 @@ func init() {
 		c.Run.Set("distinct_nontrivial", cases)
 		c.Run.Set("rule", fmt.Sprintf("every query history of length 1..%d over %d queries (network/DNS/engine, each hitting a different table or list; two file-backed lists and one string list) x every fault point 0..n x 5 fault kinds (Close, either or both file handles replaced by closed descriptors, both replaced by handles of an empty file), for histories of at most %d queries also followed by every second fault at or after the first; every case is distinct; each query after the fault: no panic, every returned rule truly matches, result subset of the rules that individually match (the fault-free result plus what precedence hid), rules in memory at fault time (cache keys, sequential-table rules, string-backed rules) still served", n, len(qs), doubleFaultLen))
 		c.Run.Set("exhaustive", exhaustive)
-		c.Run.Assumption("fault kinds are those reachable through the public API (RuleStorage.Close, exported FileRuleList.File); read errors in the middle of a line are not injected")
+		c.Run.Assumption("fault kinds are those reachable through the public API (RuleStorage.Close, exported FileRuleList.File); a read error in the middle of a line is injected at the block boundary (hook point file.read-next-chunk)")
 	})
 }
